@@ -23,6 +23,10 @@ type ConfigDNSCrypt struct {
 
 	// DNSCryptProviderName is a DNSCrypt provider name (see DNSCrypt spec).
 	DNSCryptProviderName string
+
+	// MaxUDPRespSize is the maximum size of DNS response over UDP protocol.
+	// If not set, [dns.MaxMsgSize] is used.
+	MaxUDPRespSize uint16
 }
 
 // ServerDNSCrypt is a DNSCrypt server implementation.
@@ -41,6 +45,10 @@ var _ Server = (*ServerDNSCrypt)(nil)
 func NewServerDNSCrypt(conf ConfigDNSCrypt) (s *ServerDNSCrypt) {
 	if conf.ListenConfig == nil {
 		conf.ListenConfig = netext.DefaultListenConfig(nil)
+	}
+
+	if conf.MaxUDPRespSize == 0 {
+		conf.MaxUDPRespSize = dns.MaxMsgSize
 	}
 
 	return &ServerDNSCrypt{
@@ -226,7 +234,7 @@ func (h *dnsCryptHandler) ServeDNS(rw dnscrypt.ResponseWriter, r *dns.Msg) (err 
 
 	network := NetworkFromAddr(rw.LocalAddr())
 	msg := nrw.Msg()
-	normalize(network, ProtoDNSCrypt, r, msg, dns.MaxMsgSize)
+	normalize(network, ProtoDNSCrypt, r, msg, h.srv.conf.MaxUDPRespSize)
 
 	return rw.WriteMsg(msg)
 }
